@@ -40,26 +40,54 @@ theorem violation_blocks_phase (cfg : Cfg) (ow : Owner) (cls : String) (ps : Lis
       simp; exact ⟨p, hp, hpo⟩
     simp [this]
 
+theorem vOwner_false_iff (cfg : Cfg) (inPhase : Bool) (p : PObj) :
+    vOwner cfg inPhase p = false ↔ (cfg.flavour.noOwnerRefs = true → inPhase = true → p.presetOwnerRef = false) := by
+  unfold vOwner; cases cfg.flavour.noOwnerRefs <;> cases inPhase <;> cases p.presetOwnerRef <;> simp
+
+theorem dry_ok_iff (cfg : Cfg) (inPhase : Bool) (p : PObj) :
+    ((dryActive cfg inPhase && p.dryRun = .error) = false ∧ (dryActive cfg inPhase && p.dryRun = .reject) = false) ↔
+      (cfg.flavour.dryRun = true → inPhase = true → p.dryRun = .accept) := by
+  unfold dryActive; cases cfg.flavour.dryRun <;> cases inPhase <;> cases p.dryRun <;> simp
+
+theorem vNs_false_iff (cfg : Cfg) (ow : Owner) (cls : String) (inPhase : Bool) (p : PObj) :
+    vNs cfg ow cls inPhase p = false ↔
+      (cfg.flavour.nsEscalation = true → ow.ns ≠ "" → ¬(inPhase = true ∧ cls ≠ "") →
+          desiredNs ow p = ow.ns ∧ cfg.scope p.kind = .namespaced) := by
+  unfold vNs
+  have hd : desiredNs ow p = "" → ow.ns = "" := by
+    unfold desiredNs; split <;> simp_all
+  cases hne : cfg.flavour.nsEscalation
+  · simp
+  · simp only [Bool.true_and, true_implies]
+    by_cases hons : ow.ns = ""
+    · simp [hons]
+    · by_cases hcl : (inPhase = true ∧ cls ≠ "")
+      · simp [hons, hcl]
+      · have hcl' : (inPhase && decide (cls ≠ "")) = false := by
+          cases inPhase <;> simp_all
+        simp only [hons, ↓reduceIte, hcl', Bool.false_eq_true, ne_eq, not_false_eq_true, true_implies, hcl]
+        by_cases hsame : desiredNs ow p = ow.ns
+        · simp [hsame, hons]
+        · have : desiredNs ow p ≠ "" := fun h => hons (hd h)
+          simp [hsame, this]
+
 /-- What preflight accepts, spelled out (the property's list): API exists, no ownerReferences of
-its own, namespace rule, dry run accepted. -/
+its own (rollout only), namespace rule, dry run accepted (rollout only). -/
 theorem preflight_ok_iff (cfg : Cfg) (ow : Owner) (cls : String) (inPhase : Bool) (p : PObj) :
     preflightObj cfg ow cls inPhase p = .ok ↔
       cfg.scope p.kind ≠ .unknown ∧
-      (cfg.flavour.noOwnerRefs = true → p.presetOwnerRef = false) ∧
-      (cfg.flavour.dryRun = true → p.dryRun = .accept) ∧
+      (cfg.flavour.noOwnerRefs = true → inPhase = true → p.presetOwnerRef = false) ∧
+      (cfg.flavour.dryRun = true → inPhase = true → p.dryRun = .accept) ∧
       (cfg.flavour.nsEscalation = true → ow.ns ≠ "" → ¬(inPhase = true ∧ cls ≠ "") →
           desiredNs ow p = ow.ns ∧ cfg.scope p.kind = .namespaced) := by
+  rw [← vOwner_false_iff, ← dry_ok_iff, ← vNs_false_iff]
   unfold preflightObj
   by_cases hs : cfg.scope p.kind = .unknown
   · simp [hs]
   · simp only [hs, ↓reduceIte, ne_eq, not_false_eq_true, true_and]
-    have hd : desiredNs ow p = "" → ow.ns = "" := by
-      unfold desiredNs; split <;> simp_all
-    cases hno : cfg.flavour.noOwnerRefs <;> cases hdr : cfg.flavour.dryRun <;>
-      cases hne : cfg.flavour.nsEscalation <;> cases hpo : p.presetOwnerRef <;>
-      cases hdv : p.dryRun <;>
-      by_cases hons : ow.ns = "" <;> by_cases hcl : (inPhase = true ∧ ¬cls = "") <;>
-      by_cases hsame : desiredNs ow p = ow.ns <;> cases hsc : cfg.scope p.kind <;> simp_all
+    cases h1 : (dryActive cfg inPhase && decide (p.dryRun = .error)) <;>
+      cases h2 : vOwner cfg inPhase p <;> cases h3 : vNs cfg ow cls inPhase p <;>
+      cases h4 : (dryActive cfg inPhase && decide (p.dryRun = .reject)) <;> simp
 
 /-- keys a namespaced owner may touch: namespaced kind, the owner's own namespace. -/
 def Inside (cfg : Cfg) (ow : Owner) (k : Key) : Prop :=
